@@ -132,6 +132,8 @@ type pathState struct {
 	atomics                  int
 	locked                   int
 	orderMode                int
+	goroutines               []func() // spawned and not yet run (cooperative scheduling)
+	inGoroutine              int
 	orderGlobalOnly          bool
 	sitePicked               bool
 	sched                    *scheduler
@@ -920,6 +922,7 @@ func (e *Engine) runPath(solver *smt.Solver, fn *ssa.Function, prefix []int, cac
 			ps.dirty = false
 		}
 		call(i, nil, token.NoPos, fn, nil)
+		ps.runGoroutines() // goroutines the harness left behind
 	}()
 	if ps.dirty || status == "error" {
 		*cache = nil
@@ -946,4 +949,31 @@ func panicClass(s string) string {
 		s = s[:80]
 	}
 	return s
+}
+
+// runGoroutines runs every pending goroutine (and the ones they spawn) to completion. While map /
+// schedule order exploration is on, a batch of several goroutines is run in creation order,
+// reversed or rotated (one choice per path); otherwise in creation order.
+func (ps *pathState) runGoroutines() {
+	for rounds := 0; len(ps.goroutines) > 0; rounds++ {
+		if rounds > 10000 {
+			panic(unsupported{"goroutines keep spawning goroutines"})
+		}
+		batch := ps.goroutines
+		ps.goroutines = nil
+		if ps.mapOrder && len(batch) > 1 {
+			switch ps.choose(3) {
+			case 1:
+				for i, j := 0, len(batch)-1; i < j; i, j = i+1, j-1 {
+					batch[i], batch[j] = batch[j], batch[i]
+				}
+			case 2:
+				h := (len(batch) + 1) / 2
+				batch = append(append([]func(){}, batch[h:]...), batch[:h]...)
+			}
+		}
+		for _, g := range batch {
+			g()
+		}
+	}
 }
